@@ -135,6 +135,12 @@ type walker struct {
 	cond     int
 	out      []access
 	cacheW   []cacheWrite
+	goW      []cacheWrite
+	// goroutine bodies: goSpawn is set by a go statement and consumed by the inline of the function literal it starts;
+	// while goActive, goRange is the source range of that literal and goInLoop says the go statement sat in a loop
+	goSpawn, goActive, goInLoop bool
+	goRange                     [2]token.Pos
+	loopDepth                   int
 	seen     map[string]bool
 	diags    []string
 	nextID   int
@@ -820,7 +826,52 @@ func (w *walker) evalSelector(x *ast.SelectorExpr, lhs bool) aval {
 }
 
 // store v into the place denoted by lhs
+// noteGoWrite: inside the literal body of a goroutine that was started in a loop, a store whose root is a variable of the
+// ENCLOSING function (captured by the literal), with no lock held: every instance of the goroutine writes the same variable
+func (w *walker) noteGoWrite(lhs ast.Expr) {
+	if !w.goActive || !w.goInLoop || len(realHeld(w.held)) > 0 {
+		return
+	}
+	if lhs.Pos() < w.goRange[0] || lhs.Pos() > w.goRange[1] {
+		return
+	}
+	e := ast.Unparen(lhs)
+	for {
+		switch x := e.(type) {
+		case *ast.IndexExpr:
+			e = ast.Unparen(x.X)
+			continue
+		case *ast.SelectorExpr:
+			e = ast.Unparen(x.X)
+			continue
+		case *ast.StarExpr:
+			e = ast.Unparen(x.X)
+			continue
+		}
+		break
+	}
+	id, ok := e.(*ast.Ident)
+	if !ok || id.Name == "_" {
+		return
+	}
+	obj, ok := w.pkg.TypesInfo.ObjectOf(id).(*types.Var)
+	if !ok || obj.IsField() || obj.Pkg() == nil || obj.Parent() == obj.Pkg().Scope() {
+		return
+	}
+	if obj.Pos() >= w.goRange[0] && obj.Pos() <= w.goRange[1] {
+		return // declared inside the goroutine (or one of its parameters)
+	}
+	k := "gowrite" + w.position(lhs.Pos())
+	if w.seen[k] {
+		return
+	}
+	w.seen[k] = true
+	w.goW = append(w.goW, cacheWrite{What: "variable " + id.Name + " of the enclosing function", From: "go statement in a loop",
+		Pos: w.position(lhs.Pos()), Via: strings.Join(w.stack, " > ")})
+}
+
 func (w *walker) store(lhs ast.Expr, v aval, pos token.Pos) {
+	w.noteGoWrite(lhs)
 	switch x := ast.Unparen(lhs).(type) {
 	case *ast.Ident:
 		if x.Name == "_" {
@@ -1270,6 +1321,13 @@ func (w *walker) inline(key string, pkg *packages.Package, recvList *ast.FieldLi
 		return nil, false
 	}
 	savedPkg, savedCond := w.pkg, w.cond
+	savedLoop, savedActive, savedRange, savedInLoop := w.loopDepth, w.goActive, w.goRange, w.goInLoop
+	if w.goSpawn {
+		// this is the body of a goroutine
+		w.goSpawn, w.goActive, w.goRange = false, true, [2]token.Pos{ft.Pos(), body.End()}
+	}
+	defer func() { w.loopDepth, w.goActive, w.goRange, w.goInLoop = savedLoop, savedActive, savedRange, savedInLoop }()
+	w.loopDepth = 0
 	w.pkg = pkg
 	w.cond = 0
 	w.stack = append(w.stack, key)
@@ -1471,7 +1529,10 @@ func (w *walker) stmt(s ast.Stmt) bool {
 		for _, a := range x.Call.Args {
 			w.publish(w.eval(a), nil, "", 0)
 		}
+		savedSpawn, savedInLoop := w.goSpawn, w.goInLoop
+		w.goSpawn, w.goInLoop = true, w.loopDepth > 0
 		w.eval(x.Call)
+		w.goSpawn, w.goInLoop = savedSpawn, savedInLoop
 		w.stack = w.stack[:len(w.stack)-1]
 		w.held = saved
 	case *ast.ReturnStmt:
@@ -1539,6 +1600,8 @@ func (w *walker) stmt(s ast.Stmt) bool {
 	case *ast.ForStmt:
 		w.stmt(x.Init)
 		saved := copyHeld(w.held)
+		w.loopDepth++
+		defer func() { w.loopDepth-- }()
 		w.cond++
 		for pass := 0; pass < 2; pass++ {
 			w.held = copyHeld(saved)
@@ -1557,6 +1620,8 @@ func (w *walker) stmt(s ast.Stmt) bool {
 		src := w.eval(x.X)
 		w.content(src, false, x.X.Pos())
 		saved := copyHeld(w.held)
+		w.loopDepth++
+		defer func() { w.loopDepth-- }()
 		w.cond++
 		for pass := 0; pass < 2; pass++ {
 			w.held = copyHeld(saved)
